@@ -123,7 +123,7 @@ CAssignments(o) ==
    ct |-> CClass(o, 1, 1, 0), cx |-> CClass(o, 1, 0, 1), ctx |-> CClass(o, 1, 1, 1), tx |-> CClass(o, 0, 1, 1)]
 
 \* ---------------------------------------------------------------- sampling of the universe
-EligCode(c, j) == (HashCells(c) * 37 + j * 1031 + j * j * 7) % Pow8(NG + 1)
+EligCode(c, j) == Mix(Mix(HashCells(c), j), j + 5) % Pow8(NG + 1)
 TableOf(code) == [given |-> TRUE, row |-> [g \in AllGeos |-> (code \div Pow8(g - 1)) % 8]]
 NoTable == [given |-> FALSE, row |-> [g \in AllGeos |-> 0]]
 EligHash(e) == IF e.given THEN Fold([g \in AllGeos |-> e.row[g]], 1, 11) ELSE 5
